@@ -52,7 +52,39 @@ def _job_interception():
         got = list(ex.map(lambda x: x + 1, [1, 2]))
     import numba
 
+    # the pool model itself: FIFO under the all-zero schedule, reordering under a drawn one,
+    # faults fire and the pool still drains (as `with ThreadPoolExecutor` does)
+    from groupby_lib.util import parallel_map
+
+    def run_pm(sched, fault=None, n=5):
+        seen = []
+        c = executor.SimContext(sched=sched, cpu_count=4, fault=fault)
+        with executor.use_context(c):
+            try:
+                out = parallel_map(lambda i: (seen.append(i), i * i)[1], [(i,) for i in range(n)])
+            except Exception as e:  # noqa: BLE001
+                out = type(e).__name__
+        return out, seen, c
+
+    fifo_out, fifo_seen, c0 = run_pm(Choices(replay=[]))
+    reordered = 0
+    for sd in range(20):
+        o, seen, c1 = run_pm(Choices(seed=sd))
+        assert o == [0, 1, 4, 9, 16], o
+        reordered += seen != sorted(seen) or c1.pools[0][4] != tuple(sorted(c1.pools[0][4]))
+    f_out, f_seen, cf = run_pm(Choices(replay=[]), fault={"kind": "task_fail_before", "k": 1})
+    s_out, s_seen, cs = run_pm(Choices(replay=[]), fault={"kind": "spawn_fail", "k": 2})
+    model = {
+        "fifo_result": fifo_out,
+        "fifo_exec_order": fifo_seen,
+        "fifo_delivery": list(c0.pools[0][4]),
+        "reordered_schedules_of_20": int(reordered),
+        "task_fault": [f_out, sorted(f_seen), cf.fault_fired],
+        "spawn_fault": [s_out, sorted(s_seen), cs.fault_fired],
+    }
+
     return {
+        "model": model,
         "sim_pools": ctx.n_pools,
         "sum": [float(x) for x in r],
         "nansum": float(s),
@@ -78,11 +110,18 @@ def selfcheck(seed, workers):
         and info["foreign_pool_class"] == "ThreadPoolExecutor"
         and info["foreign_map"] == [2, 3]
         and info["boundscheck"]
+        and info["model"]["fifo_result"] == [0, 1, 4, 9, 16]
+        and info["model"]["fifo_exec_order"] == [0, 1, 2, 3, 4]
+        and info["model"]["fifo_delivery"] == [0, 1, 2, 3, 4]
+        and info["model"]["reordered_schedules_of_20"] >= 10
+        and info["model"]["task_fault"] == ["InjectedFault", [0, 2, 3, 4], "task_fail_before"]
+        and info["model"]["spawn_fault"][0] == "InjectedSpawnFailure"
+        and info["model"]["spawn_fault"][2] == "spawn_fail"
     )
     if not ok:
         print("HARNESS-ERROR: seam interception self-check failed")
         return 2
-    rc = selftest(seed, 16, min(workers, 4), _available(["C04"]))
+    rc = selftest(seed, 16, min(workers, 4), _available(["C04", "C20"]))
     print(f"selfcheck done in {time.time() - t0:.1f}s")
     return rc
 
